@@ -408,17 +408,15 @@ func (s *MemoryStore) RevokeAccessToken(ctx context.Context, requestID string) e
 	s.accessTokenRequestIDsMutex.RLock()
 	defer s.accessTokenRequestIDsMutex.RUnlock()
 
-	if signature, exists := s.AccessTokenRequestIDs[requestID]; exists {
-		if err := s.DeleteAccessTokenSession(ctx, signature); err != nil {
-			return err
-		}
-	}
-
 	// The index only remembers the latest signature of a request. A request can own more than one access
 	// token (the hybrid flow issues one next to the code and another one when the code is redeemed), and
-	// revoking by request ID has to cover all of them.
+	// revoking by request ID has to cover all of them - in one step, so that nobody can find one of them
+	// gone and another one still there.
 	s.accessTokensMutex.Lock()
 	defer s.accessTokensMutex.Unlock()
+	if signature, exists := s.AccessTokenRequestIDs[requestID]; exists {
+		delete(s.AccessTokens, signature)
+	}
 	for signature, req := range s.AccessTokens {
 		if req.GetID() == requestID {
 			delete(s.AccessTokens, signature)
